@@ -343,7 +343,16 @@ func (p *c01) generatedStream(r *rand.Rand, t string) []*Case {
 		if i%12 == 5 {
 			depth, gd = 12, -12 // deep spine
 		}
-		src, tags := GenSource(r, gd, size)
+		wideRate := 0
+		if i%20 == 3 {
+			// the arity dimension inside random programs: 1 list in 12, at whatever list site the
+			// generator reaches, has 17..46 items (tag gen:wide-list)
+			wideRate, size = 12, 200+r.Intn(400)
+			if depth > 6 {
+				depth, gd = 6, 6
+			}
+		}
+		src, tags := GenSourceWide(r, gd, size, wideRate)
 		c := p.c01Case("generated", fmt.Sprintf("gen%d.go", i), []byte(src), rand.New(rand.NewSource(r.Int63())), "", genPkgNameOrStd, false)
 		if c.Meta["skip"] == "parse-error" {
 			fmt.Fprintf(os.Stderr, "C01: generator produced a program that does not parse (generator defect):\n%s\n", src)
@@ -365,6 +374,7 @@ func (p *c01) Generate(r *rand.Rand, t string) []*Case {
 		}
 	}
 	out = append(out, p.generatedStream(r, t)...)
+	out = append(out, p.wideStream(r, t)...)
 	return out
 }
 
